@@ -4275,6 +4275,7 @@ fn main() {
             "router execution in the totality part is limited to statement kinds that stay inside the relational/graph/vector engines; panics whose location is outside neumann_parser/query_router are counted, not judged".into(),
             "results are compared up to representation: NULL vs absent column, row order without ORDER BY, neighbour order, equal-length shortest paths, equal-score similarity ties, property values by typed value; a LIMIT/OFFSET window over a listing whose order is unspecified (NODE LIST, EDGE LIST, FIND) is judged by its size, by membership in the direct listing and by absence of duplicates; FIND .. WHERE is only judged on elements whose property is an integer".into(),
             "an error is required to be an error on both sides; error texts are not compared".into(),
+            "a COSINE SIMILAR answered from the router's HNSW index is judged on the scores of the returned keys (fresh index only); a zero query vector has no defined cosine score and is not judged".into(),
         ],
         floors,
         exhaustive: false,
